@@ -29,13 +29,13 @@ type monitorSpec struct {
 }
 
 var monitors = map[string]monitorSpec{
-	"C12": {"entropy", "entropy_mon_test.go.txt", "entropy encoder/decoder pairs: decode(encode(b)) == b and the decoder consumes exactly the bits written (sentinel word)"},
-	"C13": {"transform", "transform_mon_test.go.txt", "transform sequences as called by encode/decode: output within bounds, inverse restores the block into the decoder's buffer, declined blocks pass through intact, no panic"},
 }
 
 // supplements: bounded monitors that run in addition to the SMT obligations of
 // a property (reported under coverage.bounded, never added to the proof counts).
 var supplements = map[string]monitorSpec{
+	"C12": {"entropy", "entropy_mon_test.go.txt", "entropy encoder/decoder pairs: decode(encode(b)) == b and the decoder consumes exactly the bits written (sentinel word)"},
+	"C13": {"transform", "transform_mon_test.go.txt", "transform sequences as called by encode/decode: output within bounds, inverse restores the block into the decoder's buffer, declined blocks pass through intact, no panic"},
 	"C15": {"io", "names_mon_test.go.txt", "name <-> type round trip over all chains of length <= 3 and all spellings; streams written with lower/mixed-case names are byte-identical to the canonical spelling and decode"},
 	"C01": {"io", "stream_mon_test.go.txt", "codec-dependent part of the round trip: NewWriter/Write*/Close then NewReader/ReadAll returns the bytes written, over sampled configurations"},
 	"C04": {"io", "stream_mon_test.go.txt", "codec-dependent part of determinism: identical compressed bytes for different job counts and splits of the data into Write calls"},
